@@ -241,6 +241,7 @@ impl From<i32> for ErrorCode {
 			OVERSIZED_REQUEST_CODE => OversizedRequest,
 			INVALID_REQUEST_CODE => InvalidRequest,
 			METHOD_NOT_FOUND_CODE => MethodNotFound,
+			SERVER_IS_BUSY_CODE => ServerIsBusy,
 			INVALID_PARAMS_CODE => InvalidParams,
 			INTERNAL_ERROR_CODE => InternalError,
 			code => ServerError(code),
